@@ -230,8 +230,9 @@ def run(repo, chk):
         return [A_.VariableLookup(A_.Variable('v', t, False), sp_)]
     n_wl = 0
     for stub in prog_ns['builtin_stubs']:
-        if getattr(stub.name, 'base_name', None) != 'writeln' or getattr(stub.name.flavor, 'name', 'NONE') != 'NONE':
+        if getattr(stub.name, 'base_name', None) not in ('writeln', 'write') or getattr(stub.name.flavor, 'name', 'NONE') != 'NONE':
             continue
+        is_write = stub.name.base_name == 'write'
         import itertools as _it
         for args in _it.product(*[examples(t) for t in stub.param_types]):
             bad = None
@@ -270,12 +271,21 @@ def run(repo, chk):
                 n_feasible += 1
                 em = [e for e in ev if e.kind == 'emit' and e.ctor != 'asm.Metadata']
                 ys = [e.short() for e in em if e.ctor == 'asm.Yield']
+                if is_write:
+                    # write(x) is the byte yield (write(byte)) or the call of the library routine for x's own type: it is never
+                    # re-dispatched to another overload (the digits of a constant are the routine's business, at every word size)
+                    redispatch = [e for e in ev if e.kind == 'sub' and e.func == 'self.eval_func_call']
+                    calls_lib = any(e.kind == 'call' and e.func == 'self.label_for_func' for e in ev)
+                    if redispatch or not (calls_lib or ys):
+                        bad = bad or ('a path feasible for this call ' + ('hands the value to another overload '
+                                      f'({[src(a) for a in redispatch[0].args][:3]})' if redispatch else 'neither yields nor calls the library routine'))
+                    continue
                 if not (ys == ["asm.Yield(asm.IntLiteral(ord('\\n'), is_char=True))"] and em and em[-1].ctor == 'asm.Yield'):
                     bad = bad or f'a path feasible for this call emits {ys or "no output"} (line {ev[-1].line if ev else "?"})'
             n_wl += 1
             label = ', '.join(f'{type(a).__name__}({getattr(a, "data", "")!r})' for a in args)
-            chk.expect(bad is None and n_feasible > 0, 'C17.D3', f'eval_func_call[writeln({label})]',
-                       bad or ('no feasible path' if not n_feasible else 'exactly one newline, last'), GEN)
+            chk.expect(bad is None and n_feasible > 0, 'C17.D3' if not is_write else 'C17.D1', f'eval_func_call[{stub.name.base_name}({label})]',
+                       bad or ('no feasible path' if not n_feasible else 'exactly one newline, last' if not is_write else 'own routine'), GEN)
     chk.floor('writeln calls decided', n_wl, 6)
 
     # ---------------- D4 --------------------------------------------------------------------
